@@ -30,6 +30,9 @@ type c12ServeCase struct {
 	Conns   []serveConn
 	Stop    string // "ctx" (cancel Serve's context) or "listener" (Accept fails)
 	Pending bool   // one more connection is offered exactly when the stop happens
+	// InAccept (with Pending): the late connection has been taken by Accept, which has not returned yet when the
+	// stop happens (otherwise Serve is held right after Accept returned)
+	InAccept bool
 	Choices []int
 }
 
@@ -194,11 +197,20 @@ func runC12Serve(c c12ServeCase) (r pbt.Result) {
 	var latePair *pair
 	lateOffered := make(chan bool, 1)
 	var pts *sim.Points
+	var releaseAccept func()
+	defer func() {
+		if releaseAccept != nil {
+			releaseAccept()
+		}
+	}()
 	if c.Pending {
 		// hold Serve between Accept and starting the per-connection goroutine while the stop happens
 		pts = sim.NewPoints([]string{"server.Serve.accepted"})
 		pts.Install()
 		defer pts.Uninstall()
+		if c.InAccept {
+			releaseAccept = lis.HoldNextAccept()
+		}
 		a, b := sim.Pipe(&clock)
 		latePair = &pair{a: a, b: b}
 		go func() { lateOffered <- lis.Offer(b) }()
@@ -210,6 +222,11 @@ func runC12Serve(c c12ServeCase) (r pbt.Result) {
 		cancel()
 	default:
 		lis.Fail(errors.New("accept failed"))
+	}
+	if releaseAccept != nil {
+		pump()
+		releaseAccept()
+		releaseAccept = nil
 	}
 	if pts != nil {
 		pump()
@@ -258,6 +275,9 @@ func runC12Serve(c c12ServeCase) (r pbt.Result) {
 				return
 			}
 			r.Label("late_connection_accepted")
+			if c.InAccept {
+				r.Label("stop_while_accept_was_returning")
+			}
 		} else {
 			r.Label("late_connection_refused")
 		}
@@ -311,6 +331,7 @@ func TestC12Serve(t *testing.T) {
 	gen := func(t *rapid.T) c12ServeCase {
 		c := c12ServeCase{Soft: rapid.Bool().Draw(t, "soft"), Stop: rapid.SampledFrom([]string{"ctx", "ctx", "listener"}).Draw(t, "stop"), Pending: rapid.Bool().Draw(t, "pending")}
 		c.Conns = rapid.SliceOfN(rapid.Custom(func(t *rapid.T) serveConn { return serveConn{State: rapid.IntRange(0, 3).Draw(t, "state")} }), 0, 3).Draw(t, "conns")
+		c.InAccept = c.Pending && rapid.Bool().Draw(t, "inaccept")
 		return c
 	}
 	pbt.Check(t, pbt.Prop[c12ServeCase]{ID: "C12", Name: "serve", Gen: gen, Run: runC12Serve})
